@@ -89,7 +89,18 @@ def run_path(env, contract, script, explorer, prune=True):
             m.seq_classes[pname] = pt[1][0]
     out = None
     status = 'ok'
+    saved_env = {k: getattr(env, k) for k in contract.overrides}
+    for k, v in contract.overrides.items():
+        setattr(env, k, v)
     try:
+        for lem in contract.lemmas:
+            x = smt.fresh_bound('s', STR)
+            m.pure += 1
+            try:
+                body = m.truth(m.interpret_function(lem, [SStr(x)], {}))
+            finally:
+                m.pure -= 1
+            m.assume(smt.ForAll([x], body))
         if contract.setup is not None:
             contract.setup(m, args)
         if contract.requires is not None:
@@ -112,6 +123,9 @@ def run_path(env, contract, script, explorer, prune=True):
     except PathEnd as pe:
         status = 'cut:' + pe.why
         out = None
+    finally:
+        for k, v in saved_env.items():
+            setattr(env, k, v)
     return m, out, status
 
 
@@ -187,6 +201,7 @@ def verify_function(env, contract, budget_ms=10000, prune=True, log=None):
             d['smt2'] = a.get('smt2') or jobs[ji]['cvc5_text']
         elif a['answer'] != 'unsat':
             d['smt2'] = jobs[ji]['cvc5_text']
+            d['z3_smt2'] = jobs[ji].get('z3_text')
         res.obligations.append(d)
     for pi, ((m, out, status), a) in enumerate(zip(paths, cov_answers)):
         lab = outcome_label(out) if out is not None else status.split(':')[0]
